@@ -19,10 +19,10 @@ written as the code does: `child_begin as u32`, `data_begin as u32` (wrapping ca
 — since the `fix:` commit for finding F13 — `u16::try_from(child_len)?`, `u16::try_from(data_len)?`
 (error = `none`).  `Document::encode_msg` refuses documents longer than `Length::MAX`.
 
-Phrase sort.  `slice::sort_by` (stable) = insertion from the right (`insertion_sort_shift_left`,
-which is literally what std runs for ≤ 20 elements; for longer slices any stable sort gives the
-same result whenever the comparator is a total preorder on the slice — it is one on leaves whose
-phrases are all single characters or all multi-character, see `Proofs/TrieSort.lean`).
+Phrase sort.  `slice::sort_by` is a stable sort; since the comparator is a total preorder (after the
+`fix:` commit that made it one — before, mixed leaves of more than 20 phrases could make `sort_by`
+panic) every stable sort returns the same list, so the model uses insertion from the right
+(`insertion_sort_shift_left`, literally what std runs for ≤ 20 elements).
 
 Reader.  `lookup_all_phrases` (= `lookup_first_n_phrases(…, usize::MAX, …)`, so the `first` cut-off
 never fires), `entries()` (the explicit-stack DFS, one `round` per refill of `results`), `about()`.
@@ -140,10 +140,13 @@ def lexLt : List Nat → List Nat → Bool
   | [], _ :: _ => true
   | a :: as, b :: bs => if a < b then true else if b < a then false else lexLt as bs
 
-/-- the comparator of `write`, as "`a` sorts strictly before `b`" -/
+/-- the comparator of `write`, as "`a` sorts strictly before `b`" (`compare(a, b) == Less`):
+    single characters are equal among themselves and go before longer phrases; longer phrases by
+    descending frequency, then descending UTF-8 order -/
 def phraseLt (a b : Phrase) : Bool :=
   if a.text.length = 1 ∧ b.text.length = 1 then false
-  else if a.text.length = 1 ∨ b.text.length = 1 then (utf8Enc a.text).length < (utf8Enc b.text).length
+  else if a.text.length = 1 then true
+  else if b.text.length = 1 then false
   else if a.freq = b.freq then lexLt (utf8Enc b.text) (utf8Enc a.text)
   else b.freq < a.freq
 
